@@ -101,7 +101,7 @@ func init() {
 	Register(&Check{
 		ID:    "C16",
 		Level: "exploration",
-		Rule: "all subsets of size <= k (k=5 quick, all subsets thorough) of 13 injected defects {malformed references made of name characters (compile stage), missing param x3 positions, missing service x3 positions, param cycle, service cycle, scope violation, scope violation on a service that also has missing dependencies, grammar violation} x the 4 combinations of --ignore-missing-params / --ignore-missing-services, each with and without --stub; " +
+		Rule: "all subsets of size <= k (k=5 quick, all subsets thorough) of 13 injected defects {malformed references made of name characters (compile stage), missing param x3 positions, missing service x3 positions, param cycle, service cycle, scope violation, scope violation on a service that also has missing dependencies, grammar violation} x the 4 combinations of --ignore-missing-params / --ignore-missing-services, each with and without --stub, with --quiet / -q, and in twelve flag spellings; eight sparse configurations (whole sections absent); " +
 			"non-trivial = at least one defect and at least one flag set; distinct = distinct (defect set, flags)",
 		Assumptions: []string{
 			"diagnostic classes are told apart by the rule prefix the tool prints; lines are compared as ordered lists between flag combinations",
@@ -109,6 +109,64 @@ func init() {
 		},
 		BudgetQuick: 120 * time.Second, BudgetThorough: 600 * time.Second,
 		Run: func(w *W) {
+			// sparse configurations: whole sections are absent, the defects sit in what is left
+			sparse := []struct {
+				id      string
+				cfg     *Cfg
+				classes []string
+			}{
+				{"only-a-decorator", &Cfg{Decorators: []Decorator{{Tag: "t", Decorator: "Dec", Args: []any{"@lost", "%gone%"}}}}, []string{"services", "params"}},
+				{"only-a-decorator-missing-service", &Cfg{Decorators: []Decorator{{Tag: "t", Decorator: "Dec", Args: []any{"@lost"}}}}, []string{"services"}},
+				{"decorator-and-parameters-no-services", &Cfg{Params: []Param{{"p", 1}}, Decorators: []Decorator{{Tag: "t", Decorator: "Dec", Args: []any{"@lost", "%p%"}}}}, []string{"services"}},
+				{"only-parameters", &Cfg{Params: []Param{{"p", "%gone%"}}}, []string{"params"}},
+				{"services-no-parameters", &Cfg{Services: []Service{{Name: "s", Constructor: P("NewT"), Args: []any{"%gone%"}}}}, []string{"params"}},
+				{"services-no-parameters-missing-service", &Cfg{Services: []Service{{Name: "s", Constructor: P("NewT"), Fields: []KV{{"F", "@lost"}}}}}, []string{"services"}},
+				{"one-todo-service-and-a-decorator", &Cfg{Services: []Service{{Name: "s", Todo: P(true)}}, Decorators: []Decorator{{Tag: "t", Decorator: "Dec", Args: []any{"@lost"}}}}, []string{"services"}},
+				{"nothing-missing-only-a-decorator", &Cfg{Decorators: []Decorator{{Tag: "t", Decorator: "Dec", Args: []any{1}}}}, nil},
+			}
+			for _, sp := range sparse {
+				sp := sp
+				w.Case("sparse/"+sp.id, func(c *C) {
+					files := []File{{"c.yaml", sp.cfg.YAML()}}
+					c.Distinct("all", c.ID)
+					c.Distinct("nontrivial", c.ID)
+					for fi, flags := range flagSets {
+						ign := map[string]bool{}
+						for _, f := range flags {
+							if f == "--ignore-missing-params" {
+								ign["params"] = true
+							}
+							if f == "--ignore-missing-services" {
+								ign["services"] = true
+							}
+						}
+						want := true
+						for _, cl := range sp.classes {
+							want = want && ign[cl]
+						}
+						br := w.Build(files, flags...)
+						c.Count("runs")
+						c.Count("evaluations_extra")
+						if br.Panic != "" {
+							c.Violation("panic", "tool panicked ("+sp.id+"):\n"+br.Panic, FilesMap(files), nil)
+							return
+						}
+						if want != (br.Exit == 0) {
+							c.Violation("sparse-verdict:"+sp.id, fmt.Sprintf("%s under %v (flag set %d): every defect is of an ignored class = %v, exit %d\n%s", sp.id, flags, fi, want, br.Exit, strings.Join(ErrorLines(br.Out), "\n")), FilesMap(files), map[string]any{"flags": flags})
+						}
+						lines := ErrorLines(br.Out)
+						for _, cl := range sp.classes {
+							n := len(LinesWithPrefix(lines, c16prefix[cl]))
+							if ign[cl] && n > 0 {
+								c.Violation("sparse-ignored-class-reported:"+sp.id, fmt.Sprintf("%s under %v: diagnostics of the ignored class %s are reported", sp.id, flags, cl), FilesMap(files), map[string]any{"flags": flags})
+							}
+							if !ign[cl] && n == 0 {
+								c.Violation("sparse-defect-not-reported:"+sp.id, fmt.Sprintf("%s under %v: no %s diagnostic\n%s", sp.id, flags, c16prefix[cl], br.Out), FilesMap(files), map[string]any{"flags": flags})
+							}
+						}
+					}
+				})
+			}
 			k := 5
 			if !w.Env.Quick() {
 				k = len(c16defects)
@@ -236,6 +294,20 @@ func init() {
 							}
 							if br.Exit == 0 && !br.OutExists {
 								c.Violation("accepted-without-output", "exit 0 but no output under "+fl, fm, nil)
+							}
+						}
+						// --quiet changes what is printed, never what the ignore flags mean
+						if len(sel) <= 3 {
+							for _, fl := range [][]string{{}, {"--ignore-missing-params"}, {"--ignore-missing-services"}, {"--ignore-missing-params", "--ignore-missing-services"}} {
+								a := w.Build(files, fl...)
+								for _, q := range [][]string{{"--quiet"}, {"-q"}} {
+									b := w.Build(files, append(append([]string{}, q...), fl...)...)
+									c.Count("runs")
+									c.Count("evaluations_extra")
+									if a.Exit != b.Exit || a.Output != b.Output || a.OutExists != b.OutExists {
+										c.Violation("quiet-changes-flag-meaning:"+strings.Join(fl, " "), fmt.Sprintf("defects %s under %v: exit %d, with %s exit %d (or a different output file)", desc, fl, a.Exit, q[0], b.Exit), fm, map[string]any{"flags": append(q, fl...)})
+									}
+								}
 							}
 						}
 						// spellings of the same flag values: explicit =true / =false, repeated flags (the last one wins)
